@@ -16,5 +16,5 @@ def gen(seed, tier): return mutexcommon.gen(seed, tier, "mutex")
 def gen_own(seed, tier): return mutexcommon.gen_own(seed, tier, "mutex")
 nontrivial = mutexcommon.nontrivial_any
 signature = mutexcommon.signature
-PARTS = [{"name": "ctl_mutex", "harness": "ctl_mutex.cpp", "gen": gen, "no_shrink": False, "timeout_case": 5},
+PARTS = [{"name": "ctl_mutex", "harness": "ctl_mutex.cpp", "gen": gen, "no_shrink": True, "timeout_case": 5},
          {"name": "seq_own", "harness": "seq_mutex_own.cpp", "gen": gen_own, "no_shrink": False, "timeout_case": 5}]
